@@ -9,19 +9,25 @@ import tempfile
 from contextlib import redirect_stdout, redirect_stderr
 
 import common
+import mainrun
 import pelbuild
 from common import Check, lean_batch, tlist
 
 TRUSTED = ['Lean 4.33.0 kernel (+ leanchecker in the thorough tier)',
            'axioms: propext, Classical.choice, Quot.sound only (audited per theorem)',
            'harness/extract.py (pins), harness/c07.py (enumeration, comparison), Drv.lean protocol parsing',
+           'harness/mainrun.py (real main() run with recorded callees; the Config it builds compared with Pel.mkConfig / Pel.dispatch)',
            'compiled driver peldrv agrees with the kernel reading of the same definitions']
-ASSUME = ['argparse and the Config object are exercised through real `peltool -n` runs, not modelled',
+ASSUME = ['the argument parser is exercised through real command lines (`peltool -n` runs and the main() runs), not modelled; the '
+          'construction of the Config from the parsed namespace IS modelled (Pel.mkConfig, Pel.dispatch) and compared on every run',
           'action-flag bits other than 0x8000/0x4000/0x2000 are irrelevant to selection (proved for the model; '
           'sampled with two fillings on the real code)']
 RULE = ('cases = (action-flag word, six switches, -S list, look-up flag), each evaluated for ALL 256 severity bytes on the '
         'real considerPEL and compared with the model row and the rule row; non-trivial = the row is neither all-selected '
-        'nor all-rejected; distinct by (flags & 0xE000, switches, group set)')
+        'nor all-rejected; distinct by (flags & 0xE000, switches, group set).  main() cases = command lines with the selection switches, '
+        '-S lists of 1..4 names with repeats, -P -x -r -e and a mode: the Config the real main() hands to the function it calls (or holds '
+        'when it exits) is compared member by member with Pel.mkConfig/dispatch, and its selection members with the command line itself; '
+        'non-trivial = a selection option is given')
 GROUPS = [0, 1, 2, 4, 5, 6, 7]
 NAMES = {0: 'Informational', 1: 'Recovered', 2: 'Predictive', 4: 'Unrecoverable', 5: 'Critical', 6: 'Diagnostic', 7: 'Symptom'}
 
@@ -184,6 +190,8 @@ def run(tier, seed):
                                                                            'actual': got, 'stdout': out.getvalue()[:200]}, 'cli_count')
     finally:
         shutil.rmtree(tmp, ignore_errors=True)
+    # the Config that main() builds from the command line (PelModel/Main.lean: mkConfig, look-up flag)
+    mainrun.check_main(ck, tier, 'config')
     exhaustive = thorough
     return ck.finish(RULE, TRUSTED, ASSUME, exhaustive=exhaustive,
                      extra={'explanation': 'thorough: all 256 severities x 24 flag words (8 relevant patterns x 3 fillings) x all 64 switch '
